@@ -20,11 +20,11 @@ RULE = ("period {1,2.5,10,3600(jump)} x duration profile {constant, growing, shr
 ASSUMPTIONS = ["Redis and RabbitMQ are wire-level fakes", "virtual time", "cron schedules not reachable (croniter absent)",
                "scheduled time of an iteration = the next_execution_time its message carried (for the first: deferred_until or timestamp+period)"]
 EVAL_COUNTER = "iterations_judged"
-REQUIRED = ["iterations_judged", "profile_shrinking", "profile_longer", "outcome_retry", "outcome_exhausted", "outcome_eager_exhausted", "first_run_deferred_until"]
+REQUIRED = ["iterations_judged", "profile_shrinking", "profile_longer", "outcome_retry", "outcome_exhausted", "outcome_eager_exhausted", "outcome_store_fault", "first_run_deferred_until"]
 CASE_TIMEOUT = 150
 
 PROFILES = ["constant", "growing", "shrinking", "sawtooth", "longer"]
-OUTCOMES = ["ok", "retry", "exhausted", "mixed", "eager_exhausted"]
+OUTCOMES = ["ok", "retry", "exhausted", "mixed", "eager_exhausted", "store_fault"]
 
 
 def gen_cases(tier, seed):
@@ -89,8 +89,8 @@ async def scenario(loop, case, out, stats, fps, samples):
         for i in range(n + 3):
             o = oc if oc != "mixed" else rnd.choice(["ok", "retry", "exhausted", "eager_exhausted"])
             kinds_seen.add(o)
-            if o == "ok":
-                steps = [{"do": "ok", "d": ds[i]}]
+            if o in ("ok", "store_fault"):
+                steps = [{"do": "ok", "d": ds[i], "ret": {"it": i}}]
             elif o == "retry":
                 steps = [{"do": "raise", "d": ds[i]}, {"do": "ok", "d": 0.01}]
             elif o == "eager_exhausted":
@@ -101,7 +101,21 @@ async def scenario(loop, case, out, stats, fps, samples):
                 steps = [{"do": "raise", "d": ds[i]}, {"do": "raise", "d": 0.01}, {"do": "raise", "d": 0.01}]
             by_iter.append({"by_attempt": steps})
         timeout = timedelta(seconds=max(1.0, 3 * p))
-        kw = dict(deferred_by=timedelta(seconds=p), retries=2, timeout=timeout, store_result=False)
+        kw = dict(deferred_by=timedelta(seconds=p), retries=2, timeout=timeout, store_result=(oc == "store_fault"))
+        if oc == "store_fault":
+            # the result store is down for every second iteration: the schedule must not care
+            mw = w.conn.results_bucket_broker.store_bucket
+            orig_fn = mw.fn
+            calls = {"n": 0}
+
+            async def flaky(*a, **k):
+                calls["n"] += 1
+                if calls["n"] % 2 == 1:
+                    stats["result_store_faults"] += 1
+                    raise ConnectionError("result store is down (injected)")
+                return await orig_fn(*a, **k)
+
+            mw.fn = flaky
         now0 = datetime.now()
         if case["du"] == "ahead":
             kw["deferred_until"] = now0 + timedelta(seconds=0.4 * p + 0.123)
